@@ -100,7 +100,11 @@ def type_json(t):
 def data_json(d):
     k = d[0]
     if k == "constr":
-        return {"constr": [d[1], [data_json(x) for x in d[2]]]}
+        # tags outside u64 cannot be held by the implementation's (or the harness's) Data
+        # representation: written as a string, which the reader classifies as "big tag"
+        # (a bare JSON number beyond f64 range does not even parse)
+        tag = d[1] if 0 <= d[1] < 2 ** 64 else str(d[1])
+        return {"constr": [tag, [data_json(x) for x in d[2]]]}
     if k == "map":
         return {"map": [[data_json(a), data_json(b)] for a, b in d[1]]}
     if k == "list":
